@@ -313,6 +313,14 @@ func c16GenDoc(r *hx.RNG, stream string) c16Case {
 			nh = 0
 		}
 		trailingEmpty := r.Intn(4) // runs that end with unanswered hops
+		// first probed TTL: ToHops stamps hop j with MinTTL + j, and library callers (and the
+		// end-to-end probes, MinTTL == MaxTTL) start above 1 — the hop's TTL is then not its index + 1
+		firstTTL := 1
+		if r.Chance(1, 3) {
+			firstTTL = r.Range(2, 60)
+		} else if r.Chance(1, 10) {
+			firstTTL = 0 // hops whose TTL was never stamped
+		}
 		oddRun := r.Chance(1, 8)   // byte strings that are not addresses (never produced by ToHops)
 		allEmpty := r.Chance(1, 10)
 		for j := 0; j < nh; j++ {
@@ -323,7 +331,10 @@ func c16GenDoc(r *hx.RNG, stream string) c16Case {
 			if allEmpty || j >= nh-trailingEmpty && r.Chance(2, 3) {
 				kind = hx.Pick(r, []string{"nil", "empty"})
 			}
-			h := &result.TracerouteHop{TTL: j + 1, IPAddress: c16GenAddr(r, kind)}
+			h := &result.TracerouteHop{TTL: firstTTL + j, IPAddress: c16GenAddr(r, kind)}
+			if firstTTL == 0 {
+				h.TTL = 0
+			}
 			if len(h.IPAddress) > 0 {
 				h.RTT = float64(r.Range(1, 300_000_000)) / 1e6
 				h.IsDest = j == nh-1 && r.Bool()
@@ -865,6 +876,7 @@ func TestC16(t *testing.T) {
 				Replay: map[string]any{"samples": s, "permuted": p, "a": ea, "b": eb, "how": "Normalize() on two documents whose RTTs are permutations of each other"}})
 		}
 	}
+	c16PipelineStream(t, rep, orc, rng.Fork(), env.Scale(400, 6000))
 	if rep.Failed() {
 		t.Fail()
 	}
